@@ -392,6 +392,11 @@ def r20_6(ctx):
             tn = [ast.unparse(e) for e in loop.target.elts]
             if arg.id in tn and tn.index(arg.id) < len(loop.iter.args):
                 src = ast.unparse(loop.iter.args[tn.index(arg.id)])
+        if src is None and isinstance(arg, ast.Name) and isinstance(loop.target, ast.Tuple) and isinstance(loop.iter, ast.Call) and ast.unparse(loop.iter.func) == "zip":
+            # for c, (<orig>, scale, meta) in zip(res[:n], self.constraints)
+            for t, a in zip(loop.target.elts, loop.iter.args):
+                if isinstance(t, ast.Tuple) and t.elts and isinstance(t.elts[0], ast.Name) and t.elts[0].id == arg.id and ast.unparse(a) == "self.constraints":
+                    src = "self.constraints[i][0]"
         if src is None and isinstance(arg, ast.Name):
             # <orig>, scale, meta = self.constraints[i]   /   <orig> = self.constraints[i][0]
             for b in ast.walk(loop):
